@@ -1458,6 +1458,9 @@ Proof.
   rewrite pow256_32 in H. lia.
 Qed.
 
+Lemma Ok_inj {A} (a b : A) : Ok a = Ok b -> a = b.
+Proof. intros H. now inversion H. Qed.
+
 Lemma read_uint_inv n w v :
   read_integer true n w = Ok v ->
   v = VInt (Z.of_N (be_val w)) /\
@@ -1478,9 +1481,11 @@ Lemma read_int_inv n w v :
 Proof.
   cbv zeta. destruct (native_width n) eqn:En.
   - unfold read_integer, in_signed.
+    set (z := if Z.testbit _ 255 then _ else _). clearbody z.
     destruct (native_cases n En) as [->|[->|[->| ->]]]; cbn [Z.of_N];
       (dif; [discriminate|]); intros [= <-]; (split; [reflexivity|]); intros _; lia.
-  - rewrite read_int_big by assumption. cbv zeta. intros [= <-]. split; [reflexivity|discriminate].
+  - rewrite read_int_big by assumption. cbv zeta. intros H. apply Ok_inj in H.
+    split; [now symmetry|discriminate].
 Qed.
 
 Lemma all_zero_zeros l :
@@ -1535,13 +1540,20 @@ Proof.
         rewrite Z.mod_add by lia. apply Z.mod_small; lia.
       * apply Z.mod_small; lia.
   - apply read_bool_inv in H as (b & -> & Hw); [|exact Hl]. cbn [pack pack_element]. now rewrite <- Hw.
-  - unfold bytes_to_address in H. rewrite Hl in H. rewrite gslice_eq in H by lia.
-    cbn [bind] in H. injection H as <-.
-    change (Z.to_nat (32 - (32 - 20))) with 20%nat. change (Z.to_nat (32 - 20)) with 12%nat.
+  - unfold bytes_to_address in H. rewrite Hl in H.
+    apply bind_ok in H as (a & Ha & H). apply Ok_inj in H. subst v.
+    rewrite gslice_eq in Ha by lia. apply Ok_inj in Ha. subst a.
+    replace (Z.to_nat (32 - (32 - 20))) with 20%nat by lia.
+    replace (Z.to_nat (32 - 20)) with 12%nat by lia.
     assert (Hsl : length (skipn 12 w) = 20%nat) by (rewrite skipn_length; unfold zlen in Hl; lia).
-    rewrite <- Hsl at 1. rewrite firstn_all. cbn [pack pack_element]. rewrite Hsl. reflexivity.
-  - intros Hn. unfold read_fixed_bytes in H. rewrite gslice_eq in H by lia.
-    cbn [bind Z.to_nat skipn] in H. injection H as <-. rewrite Z.sub_0_r, Z_N_nat.
+    rewrite firstn_all2 by lia. cbn [pack pack_element]. rewrite Hsl. cbn [Nat.eqb].
+    unfold left_pad. now rewrite Hsl.
+  - intros Hn. unfold read_fixed_bytes in H.
+    apply bind_ok in H as (a & Ha & H). apply Ok_inj in H. subst v.
+    rewrite gslice_eq in Ha by lia. apply Ok_inj in Ha. subst a.
+    replace (Z.to_nat 0) with 0%nat by lia. rewrite Z.sub_0_r.
+    replace (Z.to_nat (Z.of_N n)) with (N.to_nat n) by lia.
+    change (skipn 0 w) with w.
     cbn [pack pack_element].
     assert (Hfl : length (firstn (N.to_nat n) w) = N.to_nat n)
       by (rewrite firstn_length; unfold zlen in Hl; lia).
